@@ -19,6 +19,8 @@ const REAL_SERVER_RTU: &str = "rodbus RTU server task (open/retry loop), server 
 const STUB_SERVER_RTU: &str = "serial port registry (simserial), clock, executor, line peer (director), application handlers (instrumented point memory)";
 const REAL_CLIENT_RTU: &str = "rodbus RTU client task (open/retry loop, ClientLoop), RTU response parser and CRC check, FrameWriter (RTU), PhysLayer inter-character delay, Channel / CallbackSession handles";
 const STUB_CLIENT_RTU: &str = "serial port registry (simserial), clock, executor, line peer (director), port-state listener (recording)";
+const REAL_TLS: &str = "rodbus TLS server/client config construction (MinTlsVersion mapping), rodbus TCP server/client tasks with TLS connection handler, role extraction (rx509), sfio-rustls-config verifiers, rustls + tokio-rustls handshakes and record layer, ring";
+const STUB_TLS: &str = "network (simtokio), clock, executor, peer endpoint configuration (bare tokio_rustls with permissive verifier), application + authorization handlers";
 const REAL_CLIENT_TCP: &str = "rodbus TCP client task (connect/retry loop, ClientLoop, request execution), Channel / CallbackSession handles, MBAP framing, request serialisation, response parsing, tokio mpsc/oneshot/select";
 const STUB_CLIENT_TCP: &str = "network (simtokio), clock, executor, peer (director), connection listener (recording)";
 
@@ -43,6 +45,7 @@ pub fn get(prop: &str, tier: &str) -> Option<Check> {
                 Batch { name: "server_tcp_model", f: scen::server_tcp::run_model, cfg: cfg(Mode::LockStep, false, 0), runs: n(60_000, 1_500_000), real: REAL_SERVER_TCP, stub: STUB_SERVER_TCP },
                 Batch { name: "server_tcp_model_faults", f: scen::server_tcp::run_model, cfg: cfg(Mode::LockStep, true, 0), runs: n(20_000, 500_000), real: REAL_SERVER_TCP, stub: STUB_SERVER_TCP },
                 Batch { name: "rtu_server_model", f: scen::rtu::run_server_model, cfg: cfg(Mode::LockStep, false, 0), runs: n(40_000, 1_000_000), real: REAL_SERVER_RTU, stub: STUB_SERVER_RTU },
+                Batch { name: "tls_authz_model", f: scen::tls::run_authz_model, cfg: cfg(Mode::Racy, false, 0), runs: n(3_000, 100_000), real: REAL_TLS, stub: STUB_TLS },
             ],
             assumptions: vec!["handlers are the harness's instrumented point memory"],
         },
@@ -146,6 +149,26 @@ pub fn get(prop: &str, tier: &str) -> Option<Check> {
                 Batch { name: "client_lockstep", f: scen::client::run_lockstep, cfg: cfg(Mode::LockStep, true, 2), runs: n(20_000, 500_000), real: REAL_CLIENT_TCP, stub: STUB_CLIENT_TCP },
             ],
             assumptions: vec!["a peer that never reads is a bounded-liveness premise, not a violation (flow-control stalls are finite)", "TLS handshake phase: see C09 and the known finding on handshake deadlines"],
+        },
+        "C09" => Check {
+            prop: "C09",
+            rule_text: "each run: one cell of the grid {min 1.2,1.3} x {authority, self-signed} x {authz, none} x {rodbus server, rodbus client} x peer versions {1.2 only, 1.3 only, both} x peer certificate {valid, wrong authority / different self-signed, wrong name (client role), expired, not yet valid, role-less, differently-roled}, under random record chunking, short writes, latency, and (fault batches) plaintext-instead-of-hello / EOF mid-handshake; the peer is a bare tokio_rustls endpoint configured directly with rustls protocol versions and a permissive verifier. Oracle model::tls_grid: application data flows iff certificate acceptable AND peer offers a version >= min (and, with authz, the certificate carries a role); negotiated version >= min; role seen by the authorization handler = certificate role; otherwise zero application bytes and zero handler/authorization calls. Distinct = grid cell x chunking flags x decode level.",
+            batches: vec![
+                Batch { name: "tls_grid_server", f: scen::tls::run_server_grid, cfg: cfg(Mode::Racy, false, 0), runs: n(1_200, 60_000), real: REAL_TLS, stub: STUB_TLS },
+                Batch { name: "tls_grid_client", f: scen::tls::run_client_grid, cfg: cfg(Mode::Racy, false, 0), runs: n(1_000, 50_000), real: REAL_TLS, stub: STUB_TLS },
+                Batch { name: "tls_grid_server_faults", f: scen::tls::run_server_grid, cfg: cfg(Mode::Racy, true, 0), runs: n(400, 20_000), real: REAL_TLS, stub: STUB_TLS },
+                Batch { name: "tls_grid_client_faults", f: scen::tls::run_client_grid, cfg: cfg(Mode::Racy, true, 0), runs: n(400, 20_000), real: REAL_TLS, stub: STUB_TLS },
+            ],
+            assumptions: vec!["rustls honours the protocol-version list it is configured with (trusted base)", "validity-period cells compare the real system clock with fixture dates decades away", "ciphertext bytes differ run to run (ring RNG); message sizes do not"],
+        },
+        "C08" => Check {
+            prop: "C08",
+            rule_text: "each run: real TLS server with an authorization handler, a client certificate from 8 fixtures (roles operator, viewer, admin, 200-char, non-ASCII, trailing space, empty, leaf+CA chain), a policy (allow-all, deny-all, the built-in read-only handler, pseudo-random table over (function, unit, range/index, role), role equality, deny-one-unit, allow-only-one-exact-request), 1-12 requests (valid / grammar; repeats of the previous request with the same start and another quantity; configured and unconfigured units) over a real TLS session; oracle: reply stream and the interleaved authorization/point-handler journal equal model::server with that policy and role (authorization query first with the request's unit, range or index and the certificate role; deny => exception 01, no handler call, no state change; allow => as without authorization; decisions per request). Distinct = hash of (policy, role, request prefixes).",
+            batches: vec![
+                Batch { name: "tls_authz_model", f: scen::tls::run_authz_model, cfg: cfg(Mode::Racy, false, 0), runs: n(6_000, 300_000), real: REAL_TLS, stub: STUB_TLS },
+                Batch { name: "tls_grid_server", f: scen::tls::run_server_grid, cfg: cfg(Mode::Racy, false, 0), runs: n(600, 30_000), real: REAL_TLS, stub: STUB_TLS },
+            ],
+            assumptions: vec!["role strings are those of the committed fixture certificates (no hook is used to inject arbitrary roles)", "the authorization policy is a pure function implemented by the harness"],
         },
         _ => return None,
     })
